@@ -12,6 +12,7 @@ import (
 	"encoding/binary"
 	"math/rand"
 	"reflect"
+	"sync/atomic"
 	"testing"
 	"time"
 	"unsafe"
@@ -28,6 +29,7 @@ import (
 	"github.com/jech/galene/packetcache"
 	"github.com/jech/galene/rtptime"
 	"github.com/jech/galene/unbounded"
+	"github.com/jech/galene/verifhook"
 )
 
 // ---------------------------------------------------------------- fake transport
@@ -782,6 +784,88 @@ type fwScript struct {
 	} `json:"seq"`
 }
 
+// forced schedules of LayerRace.tla: adjustLayer (which = "adjustLayer") or the deferred limitSid update of replaceTracks
+// (which = "replaceTracks") is stopped by the hook between its load and its store of the layer word, a Write that moves the selected
+// layer runs, then the stopped goroutine is released.  The feedback event is logged with the layer word just before the release.
+func fwRaceLayer(tr *vTrace, which string, variant int) {
+	cfg := fwStreamCfg{"vp9", 32768, 0}
+	r := fwNewRig(tr, cfg, 1000, 64, "race-"+which)
+	gate := make(chan struct{})
+	reached := make(chan struct{}, 1)
+	var armed atomic.Bool
+	verifhook.Set(func(point string, args ...any) {
+		if point == "rtpconn."+which+".loaded" && armed.CompareAndSwap(true, false) {
+			reached <- struct{}{}
+			<-gate
+		}
+	})
+	defer verifhook.Set(nil)
+	pos, pid := 0, 7
+	frame := func(kf bool, sids int) {
+		for sid := 0; sid < sids; sid++ {
+			t := fwTruth{Pid: pid, Tid: 0, Sid: sid, Start: 1, End: 1, Kf: vB(kf && sid == 0), Tidup: 1, Marker: vB(sid == sids-1)}
+			p := r.packet(pos, func() (fwTruth, int) { return t, 80 })
+			pos++
+			r.deliver(p, true)
+		}
+		pid++
+	}
+	frame(true, 2)  // two spatial layers appear: the receiver, at the top, follows (sid 1, maxSid 1)
+	frame(false, 2)
+	r.adjust("down") // wantedSid 0
+	frame(true, 2)   // keyframe: sid 0
+	frame(false, 2)
+	if which == "adjustLayer" {
+		r.adjust("up") // wantedSid 1, still sid 0
+		now := rtptime.Jiffies()
+		r.down.maxBitrate.Set(1<<30, now)
+		r.down.maxREMBBitrate.Set(0, now)
+	} else if variant == 0 {
+		r.adjust("up")
+	}
+	done := make(chan struct{})
+	armed.Store(true)
+	go func() {
+		defer close(done)
+		if which == "adjustLayer" {
+			r.down.adjustLayer()
+		} else {
+			replaceTracks(r.dconn, []conn.UpTrack{r.up}, variant == 1)
+		}
+	}()
+	stopped := false
+	select {
+	case <-reached:
+		stopped = true
+	case <-done:
+	case <-time.After(2 * time.Second):
+	}
+	if stopped {
+		if which == "replaceTracks" && variant == 1 {
+			// a third spatial layer shows up meanwhile: maxSid moves in Write
+			t := fwTruth{Pid: pid, Tid: 0, Sid: 2, Start: 1, End: 1, Tidup: 1, Marker: 1}
+			p := r.packet(pos, func() (fwTruth, int) { return t, 80 })
+			pos++
+			r.deliver(p, true)
+		} else {
+			frame(true, 2) // the keyframe at which Write switches to sid 1
+		}
+		lb := fwLayerOf(r.down)
+		close(gate)
+		<-done
+		la := fwLayerOf(r.down)
+		if which == "adjustLayer" {
+			r.emit(map[string]any{"ev": "Adj", "dir": "up", "lb": lb, "la": la, "racing": 1})
+		} else {
+			r.emit(map[string]any{"ev": "Lim", "lim": vB(variant == 1), "err": 0, "lb": lb, "la": la, "racing": 1})
+		}
+	} else {
+		r.emit(map[string]any{"ev": "RaceNotForced", "which": which})
+	}
+	frame(false, 2)
+	frame(false, 2)
+}
+
 func TestVerifForward(t *testing.T) {
 	tr := vOpenTrace()
 	defer tr.Close()
@@ -813,5 +897,10 @@ func TestVerifForward(t *testing.T) {
 	}
 	for i := 0; i < 1+n/10; i++ {
 		fwPairStream(tr, r0, cfgs[i%3], 60)
+	}
+	if vEnvInt("VERIF_RACE", 1) != 0 {
+		fwRaceLayer(tr, "adjustLayer", 0)
+		fwRaceLayer(tr, "replaceTracks", 0)
+		fwRaceLayer(tr, "replaceTracks", 1)
 	}
 }
